@@ -15,7 +15,8 @@ FLAKY = ('context_tests', 'performance_tests', 'mandelbrot', 'test_large_kleene_
 
 # detection results: every RESULT line of every batch log, in time order; remember first and last
 runs = {}
-logs = sorted(glob.glob('/tmp/mut/batch*.log'), key=os.path.getmtime)
+# batch1.log is left out: the disk filled up during that batch and its results are unreliable (it was repeated as batch 2)
+logs = sorted((l for l in glob.glob('/tmp/mut/batch*.log') if not l.endswith('/batch1.log')), key=os.path.getmtime)
 for lg in logs:
     cur = []
     for line in open(lg, errors='replace'):
@@ -70,7 +71,7 @@ for g, ids in GROUPS.items():
                 det = 'inconclusive'
             else:
                 det = 'run timed out'
-            if first is not last and first['exit'] == 0 and last['exit'] == 1:
+            if last['exit'] == 1 and any(x['exit'] == 0 for x in r[:-1]):
                 det = 'caught after strengthening (first run missed)'
         rows.append((label, status, det, (last or {}).get('signatures', []), agent_meta.get('needs_to_manifest', agent_meta.get('what_breaks', ''))))
         if confirmed and '--write' in sys.argv:
